@@ -475,6 +475,33 @@ register('C02', [l0_suite(['merge_rows', 'merge_values']), l2_suite('multi', nat
          ['write times set explicitly (second granularity); all writers declare the same columns'])
 
 # ---------------------------------------------------------------- crash points (C04)
+def live_entries(blk):
+    """kv dump block (rows mode, '#' tokens removed) -> the live rows only: [(key, row tokens)];
+    None if the block cannot be parsed"""
+    if not blk or blk[0] != 'ok':
+        return None
+    try:
+        n = int(blk[1]); i = 2; out = []
+        def sv(i):
+            return (blk[i:i + 1], i + 1) if blk[i] == 'N' else (blk[i:i + 2], i + 2)
+        for _ in range(n):
+            key, i = sv(i)
+            md, tomb = blk[i], blk[i + 1]; i += 2
+            if blk[i] == '_':
+                i += 1; continue
+            i += 1                       # S
+            kind, dt, nc = blk[i], blk[i + 1], int(blk[i + 2]); i += 3
+            cols = []
+            for _ in range(nc):
+                idx, ut = blk[i], blk[i + 1]; i += 2
+                v, i = sv(i)
+                cols.append((idx, tuple(v)))
+            if kind == 'L' and tomb == '0':
+                out.append((tuple(key), tuple(cols)))
+        return out
+    except (IndexError, ValueError):
+        return None
+
 def c04_monitor(ctx, res, case, impl_line, model_line, spec):
     """every crash point of a commit: recovery (read-only and read-write) succeeds and shows
     exactly the old or exactly the new contents; from the PUT of the version object on, the new."""
@@ -484,7 +511,7 @@ def c04_monitor(ctx, res, case, impl_line, model_line, spec):
             continue
         if toks[0] != 'ok':
             continue
-        mi = toks.index('M'); me = toks.index(']', mi)
+        mi = toks.index('M'); me = toks.index(']' if toks[mi + 1] == '[' else '}', mi)
         muts = toks[mi + 2:me]
         blocks, cur = [], None
         for t in toks[me + 1:]:
@@ -496,6 +523,13 @@ def c04_monitor(ctx, res, case, impl_line, model_line, spec):
             elif cur is not None:
                 cur.append(t)
         if cur is not None: blocks.append(cur)
+        if toks[mi + 1] == '{':
+            # a vacuum: while the parent is not yet retired its purged delete markers are merged
+            # back in; what must be old-or-new is what the table CONTAINS (the live rows)
+            proj = [live_entries(b) for b in blocks]
+            if any(p is None and b[:1] == ['ok'] for p, b in zip(proj, blocks)):
+                continue
+            blocks = [(['ok'] + [repr(p)]) if p is not None else b for p, b in zip(proj, blocks)]
         if len(blocks) != 2 * (len(muts) + 1):
             # node-level puts are not in 'muts' for multi-node trees; use the block count
             pass
